@@ -180,6 +180,35 @@ class FormatChecks(Contract):
         return out
 
 
+def _format_checks_replay(self, rec):
+    def thunk():
+        """statistics that are non-finite floats: the script must still evaluate to the schema"""
+        import warnings
+
+        import numpy as np
+        import pandera as pa
+
+        warnings.simplefilter("ignore")
+        obs, bad = {}, False
+        for name, check in (("in_range(-inf, inf)", pa.Check.in_range(-np.inf, np.inf)), ("le(inf)", pa.Check.le(float("inf"))), ("ge(-inf)", pa.Check.ge(float("-inf")))):
+            schema = pa.DataFrameSchema({"a": pa.Column(float, check)})
+            try:
+                ns = {}
+                exec(schema.to_script(), ns)  # noqa: S102 - the generated script is what the property is about
+                got = "equal" if ns["schema"] == schema else "a different schema"
+            except Exception as e:  # noqa: BLE001
+                got = f"raised {type(e).__name__}: {e}"
+            if got != "equal":
+                bad = True
+                obs[f"exec(to_script(Column(float, Check.{name})))"] = got
+        return bad, obs or "scripts with non-finite bounds evaluate to the schema"
+
+    return thunk
+
+
+FormatChecks.concretize = _format_checks_replay
+
+
 # ---------------------------------------------------------------------------------------
 # _format_index
 # ---------------------------------------------------------------------------------------
